@@ -397,6 +397,12 @@ class Machine(object):
             return Const("int", c["int"])
         if c["ty"] == "()":
             return Const("unit", None)
+        if c["ty"] in ("&str", "&'static str") and c["display"].startswith('"') and c["display"].endswith('"'):
+            try:
+                import ast as _ast
+                return Ref(Cell(Const("str", _ast.literal_eval(c["display"]))))
+            except Exception:
+                pass
         if c["ty"].startswith("&[u8") and c["display"].startswith('b"'):
             b = decode_bytes(c["display"][2:-1])
             if b is not None:
@@ -1105,6 +1111,11 @@ class Machine(object):
         if isinstance(fv, Const) and fv.kind == "fn" and self.may_inline(fv.v.get("resolved") or fv.v["def"]):
             self.push_frame(st, (fv.v.get("resolved") or fv.v["def"], None), cargs, None, None)
             return None
+        if isinstance(fv, Const) and fv.kind == "fn":
+            nm = fv.v.get("resolved") or fv.v["def"]
+            if (nm in IDENTITY_CALLS or fv.v["def"] in IDENTITY_CALLS) and len(cargs) == 1:
+                a = cargs[0]
+                return self.native_resume(st, nf, copy_val(a.cell.val) if isinstance(a, Ref) and not nm.endswith(("::deref", "::as_ref", "::as_str")) else a)
         # unknown callable (a caller-supplied callback, or a fn item kept opaque)
         name = (fv.v.get("resolved") or fv.v["def"]) if isinstance(fv, Const) and fv.kind == "fn" else "callback"
         lbl = tuple([lab(fv)] + [lab(a) for a in cargs]) if name == "callback" else tuple(lab(a) for a in cargs)
